@@ -6,7 +6,7 @@ EXTENDS MC_RespHeaders, Json, SequencesExt
 
 CONSTANTS SHARD, NSHARDS
 
-GOps == Ops \cup {<<"set", "A", "L">>, <<"body", "html", "n300">>, <<"body", "raw", "n0">>, <<"body", "stream", "n0">>, <<"cookie", "c2">>}
+GOps == Ops \cup {<<"set", "A", "L">>, <<"body", "html", "n300">>, <<"body", "raw", "n0">>, <<"body", "stream", "n0">>, <<"body", "stream", "n248">>, <<"cookie", "c2">>, <<"rebuild">>}
 Hist(k) == [1..k -> GOps]
 \* sharding on the first operation keeps every TLC process busy
 OpsSeq == SetToSeq(GOps)
